@@ -11,6 +11,58 @@ pub fn prop() -> Prop {
 
 // ------------------------------------------------------------------ generators
 
+// ---- scale sweep. Every generator below first draws a shape of size ~1e-2..1e2 and then multiplies the whole
+// configuration (shape, query points, radii, accuracies - not angles) by a power of two: scaling by 2^k is exact,
+// so grid inputs stay exactly decidable and bit-exact correspondence groups stay bit-exact. Mostly 2^-60..2^60,
+// sometimes the wide range below, chosen per family so that the closed forms themselves neither overflow nor
+// lose their operands to underflow: areas and cross products are ~ s^2 (|k| <= 450 with coordinates <= ~200),
+// `Affine::svd` forms fourth powers of the coefficients (|k| <= 200). Beyond that the code cannot represent its
+// own intermediate results and nothing is claimed.
+const W_POLY: i64 = 450; // Rect, Triangle, Line, winding_inner
+const W_ROUND: i64 = 400; // RoundedRect, Circle, CircleSegment
+const W_ELL: i64 = 200; // Ellipse (svd)
+fn pow2(k: i64) -> f64 {
+    2f64.powi(k as i32)
+}
+fn g_scale(r: &mut Rng, wide: i64) -> f64 {
+    match r.below(10) {
+        0 | 1 => 1.0,
+        2 => pow2(r.range_i(-wide, wide)),
+        _ => pow2(r.range_i(-60, 60)),
+    }
+}
+fn scaled(v: &[f64], s: f64) -> Vec<f64> {
+    v.iter().map(|x| x * s).collect()
+}
+fn scp(p: Point, s: f64) -> Point {
+    Point::new(p.x * s, p.y * s)
+}
+/// multiply the entries `idx` of a law's argument vector by one scale factor
+fn scale_args(r: &mut Rng, mut v: Vec<f64>, idx: std::ops::Range<usize>, wide: i64) -> Vec<f64> {
+    let s = g_scale(r, wide);
+    for i in idx {
+        v[i] *= s;
+    }
+    v
+}
+/// all values are small integers (|n| <= 2^13) in units of one common power of two: sums and products of a few of
+/// them are exact, so the outline's own ray cast is exactly decidable even on its vertex rows
+fn common_grid(xs: &[f64]) -> bool {
+    let m = xs.iter().fold(0.0f64, |m, v| m.max(v.abs()));
+    if m == 0.0 {
+        return true;
+    }
+    if !m.is_finite() || m < 1e-290 {
+        return false;
+    }
+    let unit = pow2(m.log2().floor() as i64 - 12);
+    xs.iter().all(|v| (v / unit).fract() == 0.0)
+}
+/// magnitude of a configuration: the largest coordinate / length in it (never 0)
+fn mag(xs: &[f64]) -> f64 {
+    xs.iter().fold(f64::MIN_POSITIVE, |m, v| m.max(v.abs()))
+}
+
 fn pick3(r: &mut Rng, a: f64, b: f64, c: f64) -> f64 {
     *r.pick(&[a, b, c])
 }
@@ -213,28 +265,31 @@ fn corr(r: &mut Rng, thorough: bool, o: &mut Out) {
         if var.agm_fixed { "iterates the mean to convergence (required)" } else { "pinned" }
     ));
     for _ in 0..n {
+        let (sp, sr, se) = (g_scale(r, W_POLY), g_scale(r, W_ROUND), g_scale(r, W_ELL));
         // --- RoundedRect
         let rect = g_rect(r);
         let radii = g_radii(r, rect);
-        let a8 = cat(&rv(rect), &radii);
+        let a8b = cat(&rv(rect), &radii);
+        let rrb = rr_of(&a8b);
+        let a8 = scaled(&a8b, sr);
         let rr = rr_of(&a8);
         let q = rr.radii();
-        let clamped = radii.iter().zip([q.top_left, q.top_right, q.bottom_right, q.bottom_left]).any(|(a, b)| a.abs() != b);
+        let clamped = a8[4..8].iter().zip([q.top_left, q.top_right, q.bottom_right, q.bottom_left]).any(|(a, b)| a.abs() != b);
         o.case(
             1,
             "rounded_rect:new/area/perimeter/bbox",
             a8.clone(),
-            cat(&cat(&rv(rr.rect()), &[q.top_left, q.top_right, q.bottom_right, q.bottom_left]), &cat(&[rr.area(), rr.perimeter(1e-9)], &rv(rr.bounding_box()))),
+            cat(&cat(&rv(rr.rect()), &[q.top_left, q.top_right, q.bottom_right, q.bottom_left]), &cat(&[rr.area(), rr.perimeter(1e-9 * sr)], &rv(rr.bounding_box()))),
             rect.width() != 0.0 && rect.height() != 0.0,
             if clamped { "radii-clamped" } else { "radii-kept" },
         );
         for _ in 0..6 {
-            let p = rr_point(r, &rr);
+            let p = scp(rr_point(r, &rrb), sr);
             o.case(2, "rounded_rect:winding", cat(&a8, &[p.x, p.y]), vec![rr.winding(p) as f64], rect.width() != 0.0 && rect.height() != 0.0, &rr_tag(&rr, p));
         }
         // --- Circle
-        let c = Circle::new((r.coord(), r.coord()), if r.chance(1, 8) { 0.0 } else { r.coord() });
-        o.case(3, "circle:area/perimeter/bbox", vec![c.center.x, c.center.y, c.radius], cat(&[c.area(), c.perimeter(1e-9)], &rv(c.bounding_box())), c.radius != 0.0, if c.radius < 0.0 { "r<0" } else { "r>=0" });
+        let c = Circle::new((r.coord() * sr, r.coord() * sr), if r.chance(1, 8) { 0.0 } else { r.coord() * sr });
+        o.case(3, "circle:area/perimeter/bbox", vec![c.center.x, c.center.y, c.radius], cat(&[c.area(), c.perimeter(1e-9 * sr)], &rv(c.bounding_box())), c.radius != 0.0, if c.radius < 0.0 { "r<0" } else { "r>=0" });
         let p = if r.chance(1, 4) {
             // Pythagorean offsets: the distance test is decided exactly
             let k = c.radius.abs() / 5.0;
@@ -255,12 +310,12 @@ fn corr(r: &mut Rng, thorough: bool, o: &mut Out) {
             2 => r.uniform(0.0, 9.0),
             _ => r.uniform(0.0, 2.0 * PI),
         };
-        let cs = CircleSegment::new((r.coord(), r.coord()), outer, inner, start, sweep);
-        let a6 = vec![cs.center.x, cs.center.y, outer, inner, start, sweep];
-        o.case(5, "circle_segment:area/perimeter/bbox", a6.clone(), cat(&[cs.area(), cs.perimeter(1e-9)], &rv(cs.bounding_box())), outer != inner, if inner > outer { "inner>outer" } else { "inner<=outer" });
+        let cs = CircleSegment::new((r.coord() * sr, r.coord() * sr), outer * sr, inner * sr, start, sweep);
+        let a6 = vec![cs.center.x, cs.center.y, cs.outer_radius, cs.inner_radius, start, sweep];
+        o.case(5, "circle_segment:area/perimeter/bbox", a6.clone(), cat(&[cs.area(), cs.perimeter(1e-9 * sr)], &rv(cs.bounding_box())), outer != inner, if inner > outer { "inner>outer" } else { "inner<=outer" });
         // winding reaches atan2: generic inputs only
         for _ in 0..2 {
-            let cs = CircleSegment::new((r.generic(-3, 5), r.generic(-3, 5)), outer.max(0.37) * (1.0 + r.unit()), inner.max(0.11) * (1.0 + 0.1 * r.unit()), r.uniform(-10.0, 10.0), sweep + 1e-3 * r.unit());
+            let cs = CircleSegment::new((r.generic(-3, 5) * sr, r.generic(-3, 5) * sr), outer.max(0.37) * (1.0 + r.unit()) * sr, inner.max(0.11) * (1.0 + 0.1 * r.unit()) * sr, r.uniform(-10.0, 10.0), sweep + 1e-3 * r.unit());
             // half of the points inside the angular range and the band
             let (lo, big) = (cs.outer_radius.min(cs.inner_radius), cs.outer_radius.max(cs.inner_radius));
             let (th, rho) = if r.bool() {
@@ -281,7 +336,9 @@ fn corr(r: &mut Rng, thorough: bool, o: &mut Out) {
             );
         }
         // --- Ellipse
-        let m = g_affine(r);
+        let mb = g_affine(r);
+        let mut m = mb;
+        m.iter_mut().for_each(|v| *v *= se);
         let e = Ellipse::from_affine(Affine::new(m));
         let rad = e.radii();
         o.case(
@@ -290,17 +347,19 @@ fn corr(r: &mut Rng, thorough: bool, o: &mut Out) {
             m.to_vec(),
             cat(&[rad.x, rad.y, e.center().x, e.center().y, e.area()], &rv(e.bounding_box())),
             rad.x.is_finite() && rad.y > 0.0,
-            if !rad.x.is_finite() || !rad.y.is_finite() { "non-finite" } else if rad.y == 0.0 { "singular" } else if m[0] * m[3] - m[1] * m[2] < 0.0 { "reflection" } else { "det>0" },
+            if !rad.x.is_finite() || !rad.y.is_finite() { "non-finite" } else if rad.y == 0.0 { "singular" } else if mb[0] * mb[3] - mb[1] * mb[2] < 0.0 { "reflection" } else { "det>0" },
         );
         let (u, v) = (r.uniform(-1.2, 1.2), r.uniform(-1.2, 1.2));
-        let p = if r.chance(1, 5) { Point::new(half(r), half(r)) } else { Affine::new(m) * Point::new(u, v) };
+        let p = if r.chance(1, 5) { scp(Point::new(half(r), half(r)), se) } else { Affine::new(m) * Point::new(u, v) };
         o.case(8, "ellipse:winding", cat(&m, &[p.x, p.y]), vec![e.winding(p) as f64], rad.y > 0.0, &format!("w={}", e.winding(p)));
         {
-            let (cx, cy, rx, ry, th) = (r.generic(-3, 5), r.generic(-3, 5), r.generic(-1, 3), r.generic(-1, 3), r.uniform(-7.0, 7.0));
+            let (cx, cy, rx, ry, th) = (r.generic(-3, 5) * se, r.generic(-3, 5) * se, r.generic(-1, 3) * se, r.generic(-1, 3) * se, r.uniform(-7.0, 7.0));
             let e = Ellipse::new((cx, cy), (rx, ry), th);
             let rad = e.radii();
-            o.case(9, "ellipse:new", vec![cx, cy, rx, ry, th], cat(&[rad.x, rad.y, e.center().x, e.center().y, e.area()], &rv(e.bounding_box())), true, if rx < 0.0 || ry < 0.0 { "negative-radius" } else { "positive-radii" });
-            let m = g_affine_regular(r);
+            // tolerance group: outputs are brought back to unit scale (exact division by a power of two) on both sides
+            o.case(9, "ellipse:new", vec![se, cx, cy, rx, ry, th], cat(&[rad.x / se, rad.y / se, e.center().x / se, e.center().y / se, e.area() / se / se], &scaled(&rv(e.bounding_box()), 1.0 / se)), true, if rx < 0.0 || ry < 0.0 { "negative-radius" } else { "positive-radii" });
+            let mut m = g_affine_regular(r);
+            m.iter_mut().for_each(|v| *v *= se);
             let e = Ellipse::from_affine(Affine::new(m));
             let (rad, rot) = e.radii_and_rotation();
             if (rad.x - rad.y).abs() > 1e-3 * rad.x {
@@ -309,8 +368,8 @@ fn corr(r: &mut Rng, thorough: bool, o: &mut Out) {
         }
         // perimeter: every arithmetic operation on the way is exact-rounded (sqrt, powi, / ...)
         {
-            let acc = 10f64.powf(-r.uniform(0.0, 10.0));
-            let m = match r.below(6) {
+            let acc = 10f64.powf(-r.uniform(0.0, 10.0)) * se;
+            let mut m = match r.below(6) {
                 0 => g_affine(r),
                 1 => g_affine_regular(r),
                 _ => {
@@ -319,6 +378,7 @@ fn corr(r: &mut Rng, thorough: bool, o: &mut Out) {
                     if r.bool() { [y * asp, 0.0, 0.0, y, 0.0, 0.0] } else { [0.0, y, -y * asp, 0.0, 1.0, 2.0] }
                 }
             };
+            m.iter_mut().for_each(|v| *v *= se);
             let e = Ellipse::from_affine(Affine::new(m));
             let (pv, ticks) = agm_ticks(|| e.perimeter(acc));
             let rad = e.radii();
@@ -333,47 +393,51 @@ fn corr(r: &mut Rng, thorough: bool, o: &mut Out) {
             };
             o.case(if var.agm_fixed { 11 } else { 111 }, if var.agm_fixed { "ellipse:perimeter" } else { "ellipse:perimeter(pinned)" }, cat(&m, &[acc]), vec![1.0, pv], ticks > 0, &tag);
             let (x, y) = (10f64.powf(r.uniform(-2.0, 2.0)), 10f64.powf(r.uniform(-2.0, 2.0)));
-            let (x, y) = if r.chance(1, 6) { (x, x) } else { (x, y) };
+            let (x, y) = if r.chance(1, 6) { (x * se, x * se) } else { (x * se, y * se) };
             let rv2 = Vec2::new(x, y);
             o.case(12, "ellipse:kummer", vec![x, y], vec![kurbo::verif::verif_kummer_elliptic_perimeter(rv2), kurbo::verif::verif_kummer_elliptic_perimeter_range(rv2)], x != y, "");
             let (pv, ticks) = agm_ticks(|| kurbo::verif::verif_agm_elliptic_perimeter(acc, rv2));
             o.case(if var.agm_fixed { 13 } else { 113 }, if var.agm_fixed { "ellipse:agm" } else { "ellipse:agm(pinned)" }, vec![acc, x, y], vec![1.0, pv], ticks > 1, &format!("{}{}-rounds", if x >= y { "" } else { "swapped/" }, ticks));
         }
         // --- Triangle
-        let t6 = g_tri(r);
+        let t6b = g_tri(r);
+        let tb = tri_of(&t6b);
+        let bbb = tb.bounding_box();
+        let t6 = scaled(&t6b, sp);
         let t = tri_of(&t6);
         let bb = t.bounding_box();
         o.case(14, "triangle:area/bbox", t6.to_vec(), cat(&[Triangle::area(&t)], &rv(bb)), Triangle::area(&t) != 0.0, if Triangle::area(&t) > 0.0 { "area>0" } else if Triangle::area(&t) < 0.0 { "area<0" } else { "area=0" });
         {
             let g6 = [r.generic(-3, 5), r.generic(-3, 5), r.generic(-3, 5), r.generic(-3, 5), r.generic(-3, 5), r.generic(-3, 5)];
-            o.case(15, "triangle:perimeter", g6.to_vec(), vec![tri_of(&g6).perimeter(1e-9)], true, "");
+            o.case(15, "triangle:perimeter", cat(&[sp], &scaled(&g6, sp)), vec![tri_of(&scaled(&g6, sp)).perimeter(1e-9 * sp) / sp], true, "");
         }
         for _ in 0..3 {
             let p = match r.below(5) {
                 0 => Point::new(half(r), half(r)),
-                1 => *r.pick(&[t.a, t.b, t.c]),
-                2 => t.a.lerp(t.b, r.range_i(-2, 6) as f64 / 4.0), // on the line a-b
+                1 => *r.pick(&[tb.a, tb.b, tb.c]),
+                2 => tb.a.lerp(tb.b, r.range_i(-2, 6) as f64 / 4.0), // on the line a-b
                 3 => {
                     let (u, v) = (r.unit(), r.unit());
                     let (u, v) = if u + v > 1.0 { (1.0 - u, 1.0 - v) } else { (u, v) };
-                    Point::new(t.a.x + u * (t.b.x - t.a.x) + v * (t.c.x - t.a.x), t.a.y + u * (t.b.y - t.a.y) + v * (t.c.y - t.a.y))
+                    Point::new(tb.a.x + u * (tb.b.x - tb.a.x) + v * (tb.c.x - tb.a.x), tb.a.y + u * (tb.b.y - tb.a.y) + v * (tb.c.y - tb.a.y))
                 }
-                _ => Point::new(r.uniform(bb.x0 - 1.0, bb.x1 + 1.0), r.uniform(bb.y0 - 1.0, bb.y1 + 1.0)),
+                _ => Point::new(r.uniform(bbb.x0 - 1.0, bbb.x1 + 1.0), r.uniform(bbb.y0 - 1.0, bbb.y1 + 1.0)),
             };
+            let p = scp(p, sp);
             let w = t.winding(p);
             o.case(if var.tri_fixed { 16 } else { 116 }, if var.tri_fixed { "triangle:winding" } else { "triangle:winding(pinned)" }, cat(&t6, &[p.x, p.y]), vec![w as f64], true, &format!("{}/w={}", if Triangle::area(&t) == 0.0 { "area=0" } else { "area!=0" }, w));
             // the outline's own ray cast, on grid coordinates (exact arithmetic on both sides)
-            if t6.iter().all(|v| *v == (*v * 2.0).round() / 2.0 && v.abs() <= 64.0) {
-                let gp = Point::new(half(r), half(r));
+            if t6b.iter().all(|v| *v == (*v * 2.0).round() / 2.0 && v.abs() <= 64.0) {
+                let gp = scp(Point::new(half(r), half(r)), sp);
                 o.case(21, "outline:triangle-path-winding", cat(&t6, &[gp.x, gp.y]), vec![t.to_path(1e-9).winding(gp) as f64], true, &format!("w={}", t.to_path(1e-9).winding(gp)));
             }
         }
         // --- Line as a shape
-        let l = Line::new((r.coord(), r.coord()), (r.coord(), r.coord()));
+        let l = Line::new((r.coord() * sp, r.coord() * sp), (r.coord() * sp, r.coord() * sp));
         let l4 = vec![l.p0.x, l.p0.y, l.p1.x, l.p1.y];
         o.case(17, "line:area/winding/bbox", l4.clone(), cat(&[l.area(), l.winding(Point::new(l.p0.x, l.p1.y)) as f64], &rv(l.bounding_box())), true, "");
-        let lg = Line::new((r.generic(-3, 5), r.generic(-3, 5)), (r.generic(-3, 5), r.generic(-3, 5)));
-        o.case(18, "line:perimeter", vec![lg.p0.x, lg.p0.y, lg.p1.x, lg.p1.y], vec![lg.perimeter(1e-9)], true, "");
+        let lg = Line::new((r.generic(-3, 5) * sp, r.generic(-3, 5) * sp), (r.generic(-3, 5) * sp, r.generic(-3, 5) * sp));
+        o.case(18, "line:perimeter", vec![sp, lg.p0.x, lg.p0.y, lg.p1.x, lg.p1.y], vec![lg.perimeter(1e-9 * sp) / sp], true, "");
         // --- spec side: winding_inner of a line, BezPath::winding of the rectangle outline
         for _ in 0..3 {
             let (s, e) = match r.below(4) {
@@ -390,6 +454,7 @@ fn corr(r: &mut Rng, thorough: bool, o: &mut Out) {
                 2 => Point::new(half(r), half(r)),
                 _ => Point::new(r.uniform(s.x.min(e.x) - 1.0, s.x.max(e.x) + 1.0), r.uniform(s.y.min(e.y) - 0.5, s.y.max(e.y) + 0.5)),
             };
+            let (s, e, p) = (scp(s, sp), scp(e, sp), scp(p, sp));
             let w = PathSeg::Line(Line::new(s, e)).verif_winding_inner(p);
             let tag = if e.y == s.y {
                 "horizontal".to_string()
@@ -406,10 +471,12 @@ fn corr(r: &mut Rng, thorough: bool, o: &mut Out) {
         }
         let gr = grid_rect(r);
         let gp = if r.chance(1, 2) { Point::new(*r.pick(&[gr.x0, gr.x1]), half(r)) } else { { let h1 = half(r); Point::new(half(r), pick3(r, gr.y0, gr.y1, h1)) } };
+        let (gr, gp) = (Rect::new(gr.x0 * sp, gr.y0 * sp, gr.x1 * sp, gr.y1 * sp), scp(gp, sp));
         let w = gr.to_path(1e-9).winding(gp);
         o.case(20, "outline:rect-path-winding", cat(&rv(gr), &[gp.x, gp.y]), vec![w as f64], gr.area() != 0.0, &format!("w={}", w));
         let rect = g_rect(r);
         let p = if r.chance(1, 2) { { let (h1, h2) = (r.coord(), r.coord()); Point::new(pick3(r, rect.x0, rect.x1, h1), pick3(r, rect.y0, rect.y1, h2)) } } else { Point::new(r.uniform(rect.min_x() - 1.0, rect.max_x() + 1.0), r.uniform(rect.min_y() - 1.0, rect.max_y() + 1.0)) };
+        let (rect, p) = (Rect::new(rect.x0 * sp, rect.y0 * sp, rect.x1 * sp, rect.y1 * sp), scp(p, sp));
         o.case(22, "rect:winding/area/perimeter/bbox", cat(&rv(rect), &[p.x, p.y]), cat(&[rect.winding(p) as f64, Shape::area(&rect), rect.perimeter(1.0)], &rv(rect.bounding_box())), rect.area() != 0.0, &format!("w={}", rect.winding(p)));
     }
 }
@@ -541,7 +608,7 @@ fn rect_close(a: Rect, b: Rect, tol: f64) -> bool {
     close(a.x0, b.x0, tol) && close(a.y0, b.y0, tol) && close(a.x1, b.x1, tol) && close(a.y1, b.y1, tol)
 }
 fn extent(bb: Rect) -> f64 {
-    bb.width().abs().max(bb.height().abs()).max(bb.x0.abs()).max(bb.x1.abs()).max(bb.y0.abs()).max(bb.y1.abs()).max(1e-3)
+    bb.width().abs().max(bb.height().abs()).max(bb.x0.abs()).max(bb.x1.abs()).max(bb.y0.abs()).max(bb.y1.abs()).max(f64::MIN_POSITIVE)
 }
 /// area / perimeter / bounding box of a closed form against the same queries on the outline
 fn scalar_queries<S: Shape>(name: &str, s: &S, path: &BezPath, want_area_sign: Option<f64>) -> Option<(String, String)> {
@@ -563,7 +630,7 @@ fn scalar_queries<S: Shape>(name: &str, s: &S, path: &BezPath, want_area_sign: O
             return fail(&format!("{}:area", name), format!("area {} has the wrong sign", a));
         }
     }
-    let (p, pp) = (s.perimeter(1e-9), path.perimeter(1e-9));
+    let (p, pp) = (s.perimeter(1e-9 * sc), path.perimeter(1e-9 * sc));
     if !close(p, pp, 1e-6 * sc) {
         return fail(&format!("{}:perimeter", name), format!("closed form {}, outline {}", p, pp));
     }
@@ -601,17 +668,15 @@ fn g_rect_pt(r: &mut Rng) -> Vec<f64> {
         cat(&rv(a), &[r.uniform(a.min_x() - 1.0, a.max_x() + 1.0), r.uniform(a.min_y() - 1.0, a.max_y() + 1.0)])
     }
 }
-fn on_grid(v: f64) -> bool {
-    v.abs() <= 1024.0 && v == (v * 2.0).round() / 2.0
-}
 fn law_rect(x: &[f64]) -> Option<(String, String)> {
     let a = Rect::new(x[0], x[1], x[2], x[3]);
     let p = Point::new(x[4], x[5]);
-    let path = a.to_path(1e-9);
+    let path = a.to_path(1e-9 * mag(x));
     let w = a.winding(p);
     // the half-open rule, stated directly
     let inside = a.x0.min(a.x1) <= p.x && p.x < a.x0.max(a.x1) && a.y0.min(a.y1) <= p.y && p.y < a.y0.max(a.y1);
-    let sign = if (a.x1 - a.x0) * (a.y1 - a.y0) > 0.0 { 1 } else { -1 };
+    // sign of the signed area, without forming the product (which underflows at the small end of the sweep)
+    let sign = if (a.x1 - a.x0).signum() * (a.y1 - a.y0).signum() > 0.0 { 1 } else { -1 };
     let want = if inside { sign } else { 0 };
     if w != want {
         return fail("rect-winding:half-open-rule", format!("{:?}.winding({:?}) = {}, half-open rule gives {}", a, p, w, want));
@@ -622,7 +687,7 @@ fn law_rect(x: &[f64]) -> Option<(String, String)> {
     // against the outline: every point when all coordinates are on the grid (exact), else off the boundary
     let sc = extent(a.abs());
     let d = (p.x - a.x0).abs().min((p.x - a.x1).abs()).min((p.y - a.y0).abs()).min((p.y - a.y1).abs());
-    if x.iter().all(|v| on_grid(*v)) || d > 1e-9 * sc {
+    if common_grid(x) || d > 1e-9 * sc {
         let pw = path.winding(p);
         if pw != w {
             return fail("rect-winding:outline", format!("{:?}.winding({:?}) = {}, its outline gives {}", a, p, w, pw));
@@ -722,8 +787,8 @@ fn law_rounded_rect(x: &[f64]) -> Option<(String, String)> {
             return fail("rounded-rect:clamp", format!("radius {} of {:?}: {} for requested {} (half shorter side {})", k, rect, got[k], x[4 + k], m));
         }
     }
-    let path = rr.to_path(1e-9);
     let sc = extent(rect);
+    let path = rr.to_path(1e-9 * sc);
     let d = rr_sdf(&rr, p);
     if d.abs() > 1e-6 * sc {
         let w = rr.winding(p);
@@ -741,8 +806,8 @@ fn law_rounded_rect(x: &[f64]) -> Option<(String, String)> {
     if !close(rr.area(), area, 1e-9 * sc * sc) {
         return fail("rounded-rect:area", format!("{:?}: {} vs {}", rr, rr.area(), area));
     }
-    if !close(rr.perimeter(1e-9), peri, 1e-9 * sc) {
-        return fail("rounded-rect:perimeter", format!("{:?}: {} vs {}", rr, rr.perimeter(1e-9), peri));
+    if !close(rr.perimeter(1e-9 * sc), peri, 1e-9 * sc) {
+        return fail("rounded-rect:perimeter", format!("{:?}: {} vs {}", rr, rr.perimeter(1e-9 * sc), peri));
     }
     if rr.bounding_box() != rect {
         return fail("rounded-rect:bounding-box", format!("{:?}", rr));
@@ -760,12 +825,12 @@ fn g_circle_pt(r: &mut Rng) -> Vec<f64> {
 fn law_circle(x: &[f64]) -> Option<(String, String)> {
     let c = Circle::new((x[0], x[1]), x[2]);
     let p = Point::new(x[3], x[4]);
-    let path = c.to_path(1e-9);
+    let path = c.to_path(1e-9 * mag(&x[0..3]));
     let rho = ((p.x - x[0]).powi(2) + (p.y - x[1]).powi(2)).sqrt();
     let r = x[2].abs();
-    if (rho - r).abs() > 1e-6 * r.max(1e-3) {
+    if (rho - r).abs() > 1e-6 * r {
         let w = c.winding(p);
-        let pw = path_winding_off_vertex_rows(&path, p, r.max(1e-3)).unwrap_or(w);
+        let pw = path_winding_off_vertex_rows(&path, p, mag(&x[0..3])).unwrap_or(w);
         if w != pw || (w != 0) != (rho < r) || w < 0 {
             return fail("circle-winding", format!("{:?}.winding({:?}) = {}, outline {}, distance {} radius {}", c, p, w, pw, rho, r));
         }
@@ -774,8 +839,8 @@ fn law_circle(x: &[f64]) -> Option<(String, String)> {
     if bb != Rect::new(x[0] - r, x[1] - r, x[0] + r, x[1] + r) {
         return fail("circle:bounding-box", format!("{:?}: {:?}", c, bb));
     }
-    if !close(c.area(), PI * r * r, 1e-12 * r * r) || !close(c.perimeter(1e-9), 2.0 * PI * r, 1e-12 * r) {
-        return fail("circle:area-perimeter", format!("{:?}: {} {}", c, c.area(), c.perimeter(1e-9)));
+    if !close(c.area(), PI * r * r, 1e-12 * r * r) || !close(c.perimeter(1e-9 * r), 2.0 * PI * r, 1e-12 * r) {
+        return fail("circle:area-perimeter", format!("{:?}: {} {}", c, c.area(), c.perimeter(1e-9 * r)));
     }
     scalar_queries("circle", &c, &path, Some(1.0))
 }
@@ -796,18 +861,18 @@ fn law_circle_segment(x: &[f64]) -> Option<(String, String)> {
     let (outer, inner, start, sweep) = (x[2], x[3], x[4], x[5]);
     let cs = CircleSegment::new((x[0], x[1]), outer, inner, start, sweep);
     let p = Point::new(x[6], x[7]);
-    let path = cs.to_path(1e-9);
+    let path = cs.to_path(1e-9 * mag(&x[0..4]));
     let (dx, dy) = (p.x - x[0], p.y - x[1]);
     let rho = (dx * dx + dy * dy).sqrt();
     let rel = (dy.atan2(dx) - start).rem_euclid(2.0 * PI); // angle from the start ray, in [0, 2pi)
-    let tol = 1e-6 * outer.max(1e-3);
+    let tol = 1e-6 * outer;
     // distance to the two arcs and (when the sweep is not the full turn) to the two rays
     let near_arc = (rho - outer).abs() < tol || (rho - inner).abs() < tol;
     let near_ray = rho * (rel.min(2.0 * PI - rel)).min((rel - sweep).abs()).sin().abs() < tol || (rel - sweep).abs() < 1e-6 || rel < 1e-6 || 2.0 * PI - rel < 1e-6;
     if !near_arc && !near_ray && rho > tol {
         let inside = inner < rho && rho < outer && rel < sweep;
         let w = cs.winding(p);
-        let pw = path_winding_off_vertex_rows(&path, p, outer.max(1e-3)).unwrap_or(w);
+        let pw = path_winding_off_vertex_rows(&path, p, mag(&x[0..4])).unwrap_or(w);
         if w != pw || (w != 0) != inside {
             let leaves = start + sweep > PI || start < -PI;
             return fail(
@@ -818,15 +883,15 @@ fn law_circle_segment(x: &[f64]) -> Option<(String, String)> {
     }
     let area = 0.5 * (outer * outer - inner * inner) * sweep;
     let peri = 2.0 * (outer - inner) + sweep * (outer + inner);
-    if !close(cs.area(), area, 1e-12 * outer * outer * 8.0) || !close(cs.perimeter(1e-9), peri, 1e-12 * outer * 16.0) {
-        return fail("circle-segment:area-perimeter", format!("{:?}: area {} (want {}), perimeter {} (want {})", cs, cs.area(), area, cs.perimeter(1e-9), peri));
+    if !close(cs.area(), area, 1e-12 * outer * outer * 8.0) || !close(cs.perimeter(1e-9 * outer), peri, 1e-12 * outer * 16.0) {
+        return fail("circle-segment:area-perimeter", format!("{:?}: area {} (want {}), perimeter {} (want {})", cs, cs.area(), area, cs.perimeter(1e-9 * outer), peri));
     }
     let sc = extent(path.bounding_box());
     if !close(cs.area(), path.area(), 1e-6 * sc * sc) {
         return fail("circle-segment:area", format!("{:?}: closed form {}, outline {}", cs, cs.area(), path.area()));
     }
-    if !close(cs.perimeter(1e-9), path.perimeter(1e-9), 1e-6 * sc) {
-        return fail("circle-segment:perimeter", format!("{:?}: closed form {}, outline {}", cs, cs.perimeter(1e-9), path.perimeter(1e-9)));
+    if !close(cs.perimeter(1e-9 * sc), path.perimeter(1e-9 * sc), 1e-6 * sc) {
+        return fail("circle-segment:perimeter", format!("{:?}: closed form {}, outline {}", cs, cs.perimeter(1e-9 * sc), path.perimeter(1e-9 * sc)));
     }
     // the bounding box is documented as not tight: it must contain the outline's
     let (bb, pb) = (cs.bounding_box(), path.bounding_box());
@@ -847,7 +912,7 @@ fn g_ellipse_new(r: &mut Rng) -> Vec<f64> {
 fn ellipse_common(name: &str, e: &Ellipse, m: [f64; 6], u: f64, v: f64) -> Option<(String, String)> {
     // m: the affine map the ellipse is the image of the unit circle under (independently computed)
     let p = Point::new(m[0] * u + m[2] * v + m[4], m[1] * u + m[3] * v + m[5]);
-    let path = e.to_path(1e-9);
+    let path = e.to_path(1e-9 * mag(&m));
     let n2 = u * u + v * v;
     if (n2 - 1.0).abs() > 1e-5 {
         let w = e.winding(p);
@@ -943,14 +1008,14 @@ fn seg_dist(a: Point, b: Point, p: Point) -> f64 {
 fn law_triangle(x: &[f64]) -> Option<(String, String)> {
     let t = tri_of(x);
     let p = Point::new(x[6], x[7]);
-    let path = t.to_path(1e-9);
+    let path = t.to_path(1e-9 * mag(x));
     let bb = t.bounding_box();
     let sc = extent(bb);
     let d = seg_dist(t.a, t.b, p).min(seg_dist(t.b, t.c, p)).min(seg_dist(t.c, t.a, p));
     let area = 0.5 * ((t.b.x - t.a.x) * (t.c.y - t.a.y) - (t.b.y - t.a.y) * (t.c.x - t.a.x));
     if d > 1e-7 * sc {
         let w = t.winding(p);
-        let pw = if x.iter().all(|v| on_grid(*v)) { path.winding(p) } else { path_winding_off_vertex_rows(&path, p, sc).unwrap_or(w) };
+        let pw = if common_grid(x) { path.winding(p) } else { path_winding_off_vertex_rows(&path, p, sc).unwrap_or(w) };
         // barycentric coordinates, independently
         let l1 = 0.5 * ((t.b.x - p.x) * (t.c.y - p.y) - (t.b.y - p.y) * (t.c.x - p.x)) / area;
         let l2 = 0.5 * ((t.c.x - p.x) * (t.a.y - p.y) - (t.c.y - p.y) * (t.a.x - p.x)) / area;
@@ -1006,26 +1071,77 @@ fn law_line(x: &[f64]) -> Option<(String, String)> {
     if bb != Rect::new(x[0].min(x[2]), x[1].min(x[3]), x[0].max(x[2]), x[1].max(x[3])) || bb != path.bounding_box() {
         return fail("line:bounding-box", format!("{:?}: {:?}", l, bb));
     }
-    let len = ((x[2] - x[0]).powi(2) + (x[3] - x[1]).powi(2)).sqrt();
-    if l.area() != 0.0 || l.winding(p) != 0 || !close(l.perimeter(1e-9), len, 1e-12 * len.max(1e-300)) {
+    let len = (x[2] - x[0]).hypot(x[3] - x[1]);
+    if l.area() != 0.0 || l.winding(p) != 0 || !close(l.perimeter(1e-9 * len), len, 1e-12 * len.max(f64::MIN_POSITIVE)) {
         return fail("line:area-winding-perimeter", format!("{:?}: area {} winding {} perimeter {}", l, l.area(), l.winding(p), l.perimeter(1e-9)));
     }
     None
 }
 
+// every law generator: the unit-scale configuration above, then the scale sweep over its lengths (not its angles,
+// unit-disc coordinates or flags)
+fn gs_rect_pt(r: &mut Rng) -> Vec<f64> {
+    let v = g_rect_pt(r);
+    scale_args(r, v, 0..6, W_POLY)
+}
+fn gs_tiling(r: &mut Rng) -> Vec<f64> {
+    let v = g_tiling(r);
+    scale_args(r, v, 0..10, W_POLY)
+}
+fn gs_rr_pt(r: &mut Rng) -> Vec<f64> {
+    let v = g_rr_pt(r);
+    scale_args(r, v, 0..10, W_ROUND)
+}
+fn gs_circle_pt(r: &mut Rng) -> Vec<f64> {
+    let v = g_circle_pt(r);
+    scale_args(r, v, 0..5, W_ROUND)
+}
+fn gs_cseg_pt(r: &mut Rng) -> Vec<f64> {
+    let mut v = g_cseg_pt(r);
+    let s = g_scale(r, W_ROUND);
+    for i in [0, 1, 2, 3, 6, 7] {
+        v[i] *= s;
+    }
+    v
+}
+fn gs_ellipse_new(r: &mut Rng) -> Vec<f64> {
+    let v = g_ellipse_new(r);
+    scale_args(r, v, 0..4, W_ELL)
+}
+fn gs_ellipse_affine(r: &mut Rng) -> Vec<f64> {
+    let v = g_ellipse_affine(r);
+    scale_args(r, v, 0..6, W_ELL)
+}
+fn gs_perimeter(r: &mut Rng) -> Vec<f64> {
+    let v = g_perimeter(r);
+    scale_args(r, v, 0..3, W_ELL)
+}
+fn gs_tri_pt(r: &mut Rng) -> Vec<f64> {
+    let v = g_tri_pt(r);
+    scale_args(r, v, 0..8, W_POLY)
+}
+fn gs_tri_degenerate(r: &mut Rng) -> Vec<f64> {
+    let v = g_tri_degenerate(r);
+    scale_args(r, v, 0..8, W_POLY)
+}
+fn gs_line(r: &mut Rng) -> Vec<f64> {
+    let v = g_line(r);
+    scale_args(r, v, 0..6, W_POLY)
+}
+
 fn laws() -> Vec<Law> {
     vec![
-        Law { name: "rect_vs_outline", gen: g_rect_pt, check: law_rect, weight: 3 },
-        Law { name: "rect_tiling", gen: g_tiling, check: law_tiling, weight: 3 },
-        Law { name: "rounded_rect_vs_outline", gen: g_rr_pt, check: law_rounded_rect, weight: 4 },
-        Law { name: "circle_vs_outline", gen: g_circle_pt, check: law_circle, weight: 1 },
-        Law { name: "circle_segment_vs_outline", gen: g_cseg_pt, check: law_circle_segment, weight: 2 },
-        Law { name: "ellipse_new_vs_outline", gen: g_ellipse_new, check: law_ellipse_new, weight: 1 },
-        Law { name: "ellipse_affine_vs_outline", gen: g_ellipse_affine, check: law_ellipse_affine, weight: 1 },
-        Law { name: "ellipse_perimeter_accuracy", gen: g_perimeter, check: law_perimeter, weight: 8 },
-        Law { name: "triangle_vs_outline", gen: g_tri_pt, check: law_triangle, weight: 2 },
-        Law { name: "triangle_degenerate", gen: g_tri_degenerate, check: law_triangle_degenerate, weight: 1 },
-        Law { name: "line_shape", gen: g_line, check: law_line, weight: 1 },
+        Law { name: "rect_vs_outline", gen: gs_rect_pt, check: law_rect, weight: 3 },
+        Law { name: "rect_tiling", gen: gs_tiling, check: law_tiling, weight: 3 },
+        Law { name: "rounded_rect_vs_outline", gen: gs_rr_pt, check: law_rounded_rect, weight: 4 },
+        Law { name: "circle_vs_outline", gen: gs_circle_pt, check: law_circle, weight: 1 },
+        Law { name: "circle_segment_vs_outline", gen: gs_cseg_pt, check: law_circle_segment, weight: 2 },
+        Law { name: "ellipse_new_vs_outline", gen: gs_ellipse_new, check: law_ellipse_new, weight: 1 },
+        Law { name: "ellipse_affine_vs_outline", gen: gs_ellipse_affine, check: law_ellipse_affine, weight: 1 },
+        Law { name: "ellipse_perimeter_accuracy", gen: gs_perimeter, check: law_perimeter, weight: 8 },
+        Law { name: "triangle_vs_outline", gen: gs_tri_pt, check: law_triangle, weight: 3 },
+        Law { name: "triangle_degenerate", gen: gs_tri_degenerate, check: law_triangle_degenerate, weight: 1 },
+        Law { name: "line_shape", gen: gs_line, check: law_line, weight: 1 },
     ]
 }
 
@@ -1063,6 +1179,12 @@ fn extra(_r: &mut Rng, thorough: bool, o: &mut Out) {
                             }
                             run("rect_vs_outline", law_rect, &[x0, y0, x1, y1, px, py], o);
                             n += 1;
+                            // the same configuration far down and far up the scale sweep (exact scaling)
+                            if !thorough || n % 7 == 0 {
+                                for s in [pow2(-300), pow2(-40), pow2(90)] {
+                                    run("rect_vs_outline", law_rect, &scaled(&[x0, y0, x1, y1, px, py], s), o);
+                                }
+                            }
                         }
                     }
                 }
@@ -1102,8 +1224,8 @@ fn extra(_r: &mut Rng, thorough: bool, o: &mut Out) {
         let aspect = 10f64.powf(4.0 * ia as f64 / na as f64);
         for ic in 0..=nc {
             let acc = 10f64.powf(-10.0 * ic as f64 / nc as f64);
-            for x in [0.3, 1.0, 7.0] {
-                run("ellipse_perimeter_accuracy", law_perimeter, &[x, x / aspect, acc, (ia % 2) as f64], o);
+            for x in [0.3, 1.0, 7.0, 7.0 * pow2(-50), 0.3 * pow2(70)] {
+                run("ellipse_perimeter_accuracy", law_perimeter, &[x, x / aspect, acc * if x < 1e-9 { pow2(-50) } else if x > 1e9 { pow2(70) } else { 1.0 }, (ia % 2) as f64], o);
             }
         }
     }
